@@ -132,9 +132,15 @@ type loaded struct {
 }
 
 func loadProgram(importPath string, overlay map[string][]byte, extraPatterns ...string) (*loaded, error) {
+	return loadProgramAt(repoRoot, importPath, overlay, extraPatterns...)
+}
+
+// loadProgramAt loads a package from an arbitrary module directory (translation-validation
+// packages live in a generated module under /verif/work that replaces the repo module by /repo).
+func loadProgramAt(dir, importPath string, overlay map[string][]byte, extraPatterns ...string) (*loaded, error) {
 	cfg := &packages.Config{
 		Mode:    packages.LoadAllSyntax,
-		Dir:     repoRoot,
+		Dir:     dir,
 		Overlay: overlay,
 		Env:     goEnv(),
 	}
@@ -159,7 +165,7 @@ func loadProgram(importPath string, overlay map[string][]byte, extraPatterns ...
 	prog.Build()
 	var main *ssa.Package
 	for k, p := range pkgs {
-		if p.PkgPath == importPath {
+		if p.PkgPath == importPath || (importPath == "." && k == 0) {
 			main = spkgs[k]
 		}
 	}
